@@ -77,7 +77,7 @@ impl Part for LibPart {
         "pairs of (query text, parameter-type list) from a family built to be adjacent under concatenation (text tails of digits and commas against type lists, whitespace-only differences, the harness' shared statement pool) plus statement/portal names and parameter values; oracles on the library codecs: Parse decode∘encode = identity, Parse::rewrite changes only the name, Bind::rename equals a reference splice (everything after the statement name byte-identical), and the cache key is injective: get_hash(a) == get_hash(b) => (text, types) equal. Non-trivial = the two statements differ".into()
     }
     fn cases(&self, tier: Tier) -> u64 {
-        tier.pick(300_000, 10_000_000)
+        tier.pick(1_200_000, 20_000_000)
     }
     fn strategy(&self, _tier: Tier) -> BoxedStrategy<LibCase> {
         (text_types(), text_types(), "[a-zA-Z0-9_]{0,8}", "[A-Z_0-9]{1,12}", "[a-z0-9]{0,5}", prop::collection::vec(prop::option::weighted(0.8, prop::collection::vec(any::<u8>(), 0..12)), 0..4))
@@ -190,7 +190,7 @@ impl Part for WirePart {
         "1..3 clients, prepared_statements_cache_size 1/2/8, pool_size 1..2; histories of 3..16 operations over names {unnamed, s1, s2} shared by all clients and a pool of 14 statements shared between clients (adjacent text/type encodings, whitespace-only differences): Parse, Bind/Describe/Execute of a name (optionally preparing it in the same batch), two statements in one batch, Close, BEGIN/COMMIT to pin connections, SQL PREPARE (forces DEALLOCATE ALL at check-in), a Parse the server rejects. Model: per client name -> most recently prepared (text, types). Oracle per batch, from the mock backend's log: every Execute ran exactly the model's text and parameter types, the backend raised no duplicate/unknown-statement error, Parse/Bind bytes reaching the backend differ from the client's only in the statement name, the client got a complete reply. Non-trivial = two clients use one name for different statements, a statement is evicted, or a batch runs on a connection that has not seen its statement".into()
     }
     fn cases(&self, tier: Tier) -> u64 {
-        tier.pick(400, 12_000)
+        tier.pick(1_600, 24_000)
     }
     fn strategy(&self, _tier: Tier) -> BoxedStrategy<WireCase> {
         let st = 0u8..STMTS.len() as u8;
